@@ -327,6 +327,14 @@ func c16(x *mon.Ctx) {
 		}
 	}
 	subs = append(subs, subject{"intel-spr-e4", intelCase(intelSprE4, sprE4Time, "c16")})
+	// QE authentication data of other sizes than the 32 bytes Intel's QE emits (around 192 = 256 - 64, a few hundred, kilobytes,
+	// the maximum): whatever is hashed with the attestation key is hashed somewhere else than behind the key
+	for _, n := range []int{1, 191, 192, 193, 257, 1000, 4096, 65535} {
+		w := richHonest(r)
+		w.Q.AuthData = randBytes(r, n)
+		w.Requote()
+		subs = append(subs, subject{fmt.Sprintf("auth-data-%d", n), w.Case(world.LBase, "c16", "")})
+	}
 	{ // a quote that fails verification late (bad QE signature): the failing path must not write either
 		w := richHonest(r)
 		w.Q.SignQE(world.NewKey())
